@@ -170,8 +170,11 @@ Ltac via H := intros; unfold P in *; eapply keeps_trans; [eassumption|]; eapply 
 
 Lemma F_fail : forall s e, P s -> P (fail s e). Proof. via keeps_fail. Qed.
 Lemma F_emit : forall s e, obs_event e -> P s -> P (emit s e). Proof. intros; unfold P in *; eapply keeps_trans; [eassumption|]; apply keeps_same; reflexivity. Qed.
-Lemma F_callback : forall s a kind r hold sw run, P s -> P (emit s (EvCallback a kind r hold sw run)).
-Proof. intros; unfold P in *; eapply keeps_trans; [eassumption|]; apply keeps_same; reflexivity. Qed.
+Lemma F_callback : forall s aid kind r mkid, P s -> P (callback s aid kind r mkid).
+Proof.
+  apply callback_from_emit; [exact F_fail|].
+  intros; unfold P in *; eapply keeps_trans; [eassumption|]; apply keeps_same; reflexivity.
+Qed.
 Lemma F_boundary : forall s e, boundary_event e -> P s -> P (flush (write s e)).
 Proof. intros; unfold P in *; eapply keeps_trans; [eassumption|]; apply keeps_same; reflexivity. Qed.
 Lemma F_accept_order : forall s mkid x ag mk buy p v ttlv m' rc tag,
